@@ -65,7 +65,7 @@ BuildModel(s, p) ==
   LET refs == {MemberRef(s.all[i]) : i \in 1..Len(s.all)} \ {""}
       inl  == s.props \/ \E i \in 1..Len(s.all) : MemberRef(s.all[i]) = "" /\ s.all[i].props
   IN IF "E" \in refs THEN D("err", <<>>)                                                    \* Cannot take allOf a non-object
-     ELSE [D("model", p) EXCEPT !.v = SelectSeq(<<"M", "N", "props">>, LAMBDA x : x \in refs \/ (x = "props" /\ inl))]
+     ELSE [D("model", p) EXCEPT !.v = SelectSeq(<<"M", "N", "D", "props">>, LAMBDA x : x \in refs \/ (x = "props" /\ inl))]
 RECURSIVE Build(_, _)
 BuildUnion(s, p) ==
   LET tld == IF s.tl THEN [i \in 1..Len(s.ts) |-> [s EXCEPT !.tl = FALSE, !.ts = <<s.ts[i]>>]] ELSE <<>>
@@ -129,7 +129,7 @@ AllOf(q) == [Empty EXCEPT !.all = q]
 Inline == [Empty EXCEPT !.props = TRUE]
 BaseTerms ==
   {Nul(T(t)) : t \in {"string", "integer", "number", "boolean", "array"}} \cup {Nul(Obj), Nul([T("string") EXCEPT !.fmt = "date"])}
-  \cup {Ref("M"), Ref("E")}
+  \cup {Ref("M"), Ref("E"), Ref("D")}          \* D: a component model with an inline nested object
   \cup {En(T("string"), <<"a", "b">>), Nul(En(T("string"), <<"a", "b">>)), En(Empty, <<"a", "b", "NULL">>), En(T("string"), <<"a", "b", "NULL">>),
         Nul(En(T("string"), <<"a", "b", "NULL">>)), En(T("integer"), <<"i1", "i2", "NULL">>), En(Empty, <<"NULL">>), Nul(En(T("string"), <<"NULL">>))}
   \cup {Nul(OneOf(<<Ref("M"), Ref("N")>>)), Nul(AnyOf(<<Ref("M"), Ref("N")>>)), Nul(OneOf(<<Ref("M")>>)), Nul(AnyOf(<<Ref("E")>>)), Nul(AllOf(<<Ref("M")>>)), Nul(AllOf(<<Ref("E")>>)),
